@@ -58,6 +58,28 @@ CLAIMED.update({
         ref='DESIGN.md 3/C16'),
 })
 
+CLAIMED.update({
+    'C06': dict(
+        text='Server/AsyncServer._enqueue are proved under a rely/guarantee model of the shared ledger (other enqueuers and the lock-free gather thread interfere at '
+             'every ledger access and during wait): the insert keeps |ledger| <= capacity for any number of callers, a rejected request performs no write, with '
+             'back-pressure no wait lies on the rejection path, without it every wait ends by the original deadline; the gather loop is proved to pop exactly the '
+             'received uid and to notify once per pop for every outcome kind (cancelled included).',
+        technique='contract-based deductive verification: pyvc E2 (rely/guarantee havoc at interference points, ghost clock), z3',
+        ref='DESIGN.md 3/C06'),
+    'C07': dict(
+        text='The gather loop is proved to let no exception escape under an adversarial caller that may cancel() the shared future between any two of its actions '
+             '(Future state machine model), to leave every other ledger entry alone and to keep notifying; _wait_for_result is proved to raise TimeoutError only '
+             'to its own caller after cancelling. The pinned-tree check-then-act defect is a failing obligation (canary).',
+        technique='contract-based deductive verification: pyvc E2 with a shared-future state machine and interference before every action, z3',
+        ref='DESIGN.md 3/C07'),
+    'C20': dict(
+        text='The parent-side reader is proved to handle every record before the first end marker once, in order, subject to the level test; the collector is proved '
+             'to put the end marker exactly once, only after it observed the child\'s exit (so after every flushed record), and to wait for the reader; the child is '
+             'proved to install forwarding before and remove it only after the target; start() binds the reader to the process\'s own queue.',
+        technique='contract-based deductive verification: pyvc VCs with history ghosts and event-order obligations on the real logging code paths, z3',
+        ref='DESIGN.md 3/C20'),
+})
+
 PENDING = 'check under construction (see DESIGN.md section 3)'
 NA = {}
 
